@@ -97,7 +97,7 @@ class PyxModule:
             mr = re.search(r'^\s+return\s+(.+)$', body, re.M)
             if mr:
                 w.returns = mr.group(1).strip()
-            for ml in re.finditer(r'cdef\s+[\w.\[\], =]*?\b(\w+)\s*=\s*([^\n]+)', body):
+            for ml in re.finditer(r'cdef\s+[^\n]*?[\]\s](\w+)\s*=\s*((?:np|numpy)\.[^\n]+)', body):
                 w.locals[ml.group(1)] = ml.group(2).strip()
             self.wrappers[name] = w
 
